@@ -24,6 +24,7 @@ var engDebug = os.Getenv("PCHECK_DEBUG") != ""
 type Engine struct {
 	itabMu    sync.Mutex
 	pure      map[*ssa.Function]bool
+	rowTabs   map[*ssa.Global]*Lit
 	failExits map[*ssa.Function][]failExit
 	writes    map[*ssa.Function]bool
 	itables   map[string]*[256]int64
@@ -401,6 +402,12 @@ func (e *Engine) info(fn *ssa.Function) *fnInfo {
 				if isFuncSlice(x.X.Type()) {
 					mark(x.Index, 0)
 				}
+				// ... and of `for _, row := range table` over a package-level table of rows
+				if u, isU := x.X.(*ssa.UnOp); isU {
+					if g, isG := u.X.(*ssa.Global); isG && e.rowTable(g) != nil {
+						mark(x.Index, 0)
+					}
+				}
 			}
 		}
 	}
@@ -618,7 +625,7 @@ func (e *Engine) run(fn *ssa.Function, entry *State, args []AbsVal) []exitState 
 			}
 			for i, phi := range phis {
 				pv := phiVals[i]
-				if pv.k == vInt && isPlainInt(phi.Type()) {
+				if pv.k == vInt && isPlainInt(phi.Type()) && !isByteType(phi.Type()) {
 					// counters: keep small constants only, and only where they can reach a cursor operation;
 					// beyond that a counter that feeds Peek/Move becomes a look-ahead index (eng_idx.go)
 					if c, ok := pv.constInt(); !ok || c > 8 || c < -8 || !fi.relInt[phi] {
@@ -1010,6 +1017,11 @@ func (e *Engine) execBlock(fi *fnInfo, b *ssa.BasicBlock, start int, st *State,
 			// assigned on the edge
 		case *ssa.If:
 			cv := e.eval(st, in.Cond)
+			if engTrace != "" && strings.Contains(fnLabel(fi.fn), engTrace) {
+				if bo, isBo := in.Cond.(*ssa.BinOp); isBo {
+					fmt.Fprintf(os.Stderr, "    cond %s: x=%s y=%s cv=%s\n", condString(in.Cond), e.eval(st, bo.X), e.eval(st, bo.Y), cv)
+				}
+			}
 			if c, ok := cv.constInt(); ok {
 				if c != 0 {
 					st.note("%s: %s is true", e.prog.Position(in.Pos()), condString(in.Cond))
@@ -1296,6 +1308,11 @@ func (e *Engine) compute(fi *fnInfo, st *State, in ssa.Value) AbsVal {
 		if base.k == vSlice {
 			e.sliceIndex(fi, st, x, base, idx)
 		}
+		if base.k == vLit && base.field < 0 && base.lit != nil {
+			if c, ok := idx.constInt(); ok && c >= 0 && int(c) < len(base.lit.Elems) && base.lit.Elems[c] != nil {
+				return AbsVal{k: vLit, lit: base.lit.Elems[c], field: -1}
+			}
+		}
 		return top
 	case *ssa.Index:
 		if b, ok := x.Type().Underlying().(*types.Basic); ok && b.Kind() == types.String {
@@ -1308,6 +1325,9 @@ func (e *Engine) compute(fi *fnInfo, st *State, in ssa.Value) AbsVal {
 	case *ssa.Slice:
 		return e.slice(fi, st, x)
 	case *ssa.Field:
+		if base := e.eval(st, x.X); base.k == vLit && base.field < 0 && base.lit != nil && x.Field < len(base.lit.Elems) {
+			return e.litValue(base.lit.Elems[x.Field], x.Type())
+		}
 		// a field of a by-value copy of a lexer sub-struct (value receivers, `t := l.tmpl`): objects are identified by
 		// type, so this is the same abstract location as the field reached through the pointer
 		if tp, ok := modTypePath(x.X.Type()); ok {
@@ -1324,7 +1344,12 @@ func (e *Engine) compute(fi *fnInfo, st *State, in ssa.Value) AbsVal {
 			return AbsVal{k: kHeapRef, atom: path}
 		}
 		return top
-	case *ssa.FieldAddr, *ssa.MakeInterface, *ssa.MakeSlice, *ssa.MakeMap, *ssa.TypeAssert, *ssa.ChangeInterface, *ssa.Range, *ssa.Next, *ssa.SliceToArrayPointer, *ssa.MakeChan, *ssa.Select:
+	case *ssa.FieldAddr:
+		if base := e.eval(st, x.X); base.k == vLit && base.field < 0 && base.lit != nil && x.Field < len(base.lit.Elems) {
+			return AbsVal{k: vLit, lit: base.lit, field: x.Field}
+		}
+		return top
+	case *ssa.MakeInterface, *ssa.MakeSlice, *ssa.MakeMap, *ssa.TypeAssert, *ssa.ChangeInterface, *ssa.Range, *ssa.Next, *ssa.SliceToArrayPointer, *ssa.MakeChan, *ssa.Select:
 		return top
 	}
 	return top
@@ -1346,6 +1371,21 @@ func (e *Engine) load(st *State, x *ssa.UnOp) AbsVal {
 	a := e.eval(st, x.X)
 	if a.k == kElemAddr {
 		return a.arr.elems[a.alo]
+	}
+	if a.k == vLit && a.lit != nil {
+		if a.field >= 0 {
+			if a.field < len(a.lit.Elems) {
+				return e.litValue(a.lit.Elems[a.field], x.Type())
+			}
+			return top
+		}
+		return a // the row (or table) itself, loaded through its address
+	}
+	// a package-level table of rows: tab := *table
+	if g, ok := x.X.(*ssa.Global); ok {
+		if l := e.rowTable(g); l != nil {
+			return AbsVal{k: vLit, lit: l, field: -1}
+		}
 	}
 	// table[c] for package-level [256]bool
 	if ia, ok := x.X.(*ssa.IndexAddr); ok {
@@ -1615,6 +1655,14 @@ func (e *Engine) store(st *State, in *ssa.Store) {
 	if a.k == kElemAddr {
 		a.arr.elems[a.alo] = e.eval(st, in.Val)
 		return
+	}
+	if al, ok := in.Addr.(*ssa.Alloc); ok {
+		// row := table[i] copied into a local: the local holds that row until it is assigned again
+		if v := e.eval(st, in.Val); v.k == vLit && v.field < 0 {
+			st.setv(al, v)
+		} else if cur, has := st.getv(al); has && cur.k == vLit {
+			delete(st.vals, al)
+		}
 	}
 	// writes into the input buffer through a lexeme slice: byte knowledge about the token becomes stale
 	if ia, ok := in.Addr.(*ssa.IndexAddr); ok {
